@@ -11,6 +11,7 @@
 
 
 import random
+import threading
 
 import ipywidgets as widgets
 import numpy as np
@@ -24,6 +25,11 @@ from .agent import Agent
 from .event import Event
 from ..logger import log
 from ..sddsl import Constant, Converter, Flow, Biflow, NaryOperator, Stock
+
+
+# SdSimulation evaluates every requested equation in its own thread on one shared model. The memo lookup is
+# check-compute-store and must not interleave, otherwise an equation is computed twice for the same time.
+_memo_lock = threading.RLock()
 
 
 class Model:
@@ -798,17 +804,18 @@ class Model:
         #normalize the arg
 
         normalized_arg= fp.normalize(arg, self.dt, self.starttime, max(fp.scale(self.starttime), fp.scale(self.dt)))
-        try:
-            mymemo = self.memo[equation]
-        except:
-            # In case the equation does not exist in memo
-            self.memo[equation] = {}
-            mymemo = self.memo[equation]
-        if normalized_arg in mymemo.keys():
-            return mymemo[normalized_arg]
-        else:
-            result = self.equations[equation](normalized_arg)
-            mymemo[normalized_arg] = result
+        with _memo_lock:
+            try:
+                mymemo = self.memo[equation]
+            except:
+                # In case the equation does not exist in memo
+                self.memo[equation] = {}
+                mymemo = self.memo[equation]
+            if normalized_arg in mymemo.keys():
+                return mymemo[normalized_arg]
+            else:
+                result = self.equations[equation](normalized_arg)
+                mymemo[normalized_arg] = result
 
         return result
 
